@@ -34,7 +34,7 @@ def gen(tier, seed):
     cases = []
     for i in range(260 if tier == "quick" else 20000):
         nseg = rnd.randint(1, 8)
-        dim = rnd.choice((2, 2, 3))
+        dim = rnd.choice((2, 2, 3))      # points in the plane or in space (the property does not speak of scalar-valued curves)
         ks, P = polyline(rnd, nseg, dim)
         mode = rnd.choice(["off", "off", "vertex", "interior", "tie", "far", "thin"])
         k = rnd.randrange(nseg)
@@ -75,7 +75,13 @@ def gen(tier, seed):
             case["pre"] = pts_json([[F(rnd.randint(-32, 32), 8) for _ in range(len(x))] for _ in P])
             case["elevate"] = False
             case["mode"] = mode + "+moved"
-        elif r < 0.55 and mode in ("off", "far", "interior") and len(P) >= 3:
+        elif r < 0.52:
+            # slow parametrisation: knot spans tens of thousands of times longer than the pieces (|C'|^2 of about 1e-9)
+            sc = rnd.choice((50000, 200000))
+            case["ks"] = fsl([k * sc for k in ks])
+            case["elevate"] = False
+            case["mode"] = mode + "+slow"
+        elif r < 0.60 and mode in ("off", "far", "interior") and len(P) >= 3:
             # a piece of zero length (two equal consecutive vertices); kept only when the nearest point is elsewhere
             j = rnd.randrange(1, len(P))
             Q = [list(v) for v in P]
@@ -108,11 +114,12 @@ def impl(case):
     from compmec.nurbs.advanced import Projection
     from implib import capture, nums, out_num
     ks = [float(k) for k in nums(case["ks"])]
-    P = [np.array([float(v) for v in nums(pt)]) for pt in case["P"]]
+    scalar = len(case["x"]) == 1            # a piecewise linear FUNCTION: control points and the point are plain floats
+    P = [float(nums(pt)[0]) if scalar else np.array([float(v) for v in nums(pt)]) for pt in case["P"]]
     U = [ks[0]] + ks + [ks[-1]]
     if case.get("pre"):
-        curve = Curve(U, [np.array([float(v) for v in nums(pt)]) for pt in case["pre"]])
-        capture(lambda: Projection.point_on_curve([float(v) for v in nums(case["x"])], curve), seconds=20)
+        curve = Curve(U, [float(nums(pt)[0]) if scalar else np.array([float(v) for v in nums(pt)]) for pt in case["pre"]])
+        capture(lambda: Projection.point_on_curve(float(nums(case["x"])[0]) if scalar else [float(v) for v in nums(case["x"])], curve), seconds=20)
         curve.ctrlpoints = P
     else:
         curve = Curve(U, P)
@@ -120,10 +127,11 @@ def impl(case):
         curve.weights = [float(w) for w in nums(case["W"])]
     if case.get("elevate"):
         curve.degree_increase(1)        # the same polyline stored with a higher degree
-    before = (tuple(curve.knotvector), tuple(map(tuple, curve.ctrlpoints)))
-    x = [float(v) for v in nums(case["x"])]
+    tup = (lambda pts: tuple(pts)) if scalar else (lambda pts: tuple(map(tuple, pts)))
+    before = (tuple(curve.knotvector), tup(curve.ctrlpoints))
+    x = float(nums(case["x"])[0]) if scalar else [float(v) for v in nums(case["x"])]
     r = capture(lambda: [out_num(t) for t in Projection.point_on_curve(x, curve)], seconds=case.get("timeout", 20))
-    same = before == (tuple(curve.knotvector), tuple(map(tuple, curve.ctrlpoints)))
+    same = before == (tuple(curve.knotvector), tup(curve.ctrlpoints))
     return {"r": r, "same": same}
 
 
